@@ -596,8 +596,10 @@ func (sw *SessionWindow) SetCallback(callback func([]types.Row)) {
 // held (the "Locked" convention — re-entering the non-reentrant mutex would
 // deadlock). Returns true if the event was absorbed into a triggered session.
 func (sw *SessionWindow) handleLateData(row types.Row) bool {
-	for _, info := range sw.triggeredSessions {
-		if info.session.slot.Contains(row.Timestamp) {
+	// a late row can only update a fired session of its own key
+	key := extractSessionCompositeKey(row.Data, sw.config.GroupByKeys)
+	for k, info := range sw.triggeredSessions {
+		if k == key && info.session.slot.Contains(row.Timestamp) {
 			// Append the late event before re-emitting so the update includes it.
 			info.session.data = append(info.session.data, row)
 			sw.triggerLateUpdateLocked(info.session)
